@@ -128,9 +128,7 @@ MUTANTS += [
      "edits": [(BA, "            elif isinstance(exc, LimitRequestLine):\n                mesg = \"%s\" % str(exc)", "            elif isinstance(exc, LimitRequestLine):\n                raise exc")]},
     {"name": "c05-sync-no-finally-close", "prop": "C05", "checks": ["C05"],
      "edits": [(SY, "            self.handle_error(req, client, addr, e)\n        finally:\n            util.close(client)", "            self.handle_error(req, client, addr, e)\n            util.close(client)")]},
-    {"name": "c05-gthread-invalid-chunk-escapes", "prop": "C05", "checks": ["C05"],
-     "edits": [(GT, "            if e.errno not in (errno.EPIPE, errno.ECONNRESET, errno.ENOTCONN):\n                self.log.exception(\"Socket error processing request.\")\n            else:\n                if e.errno == errno.ECONNRESET:\n                    self.log.debug(\"Ignoring connection reset\")\n                elif e.errno == errno.ENOTCONN:\n                    self.log.debug(\"Ignoring socket not connected\")\n                else:\n                    self.log.debug(\"Ignoring connection epipe\")",
-                "            if e.errno not in (errno.EPIPE, errno.ECONNRESET, errno.ENOTCONN):\n                raise\n            else:\n                self.log.debug(\"Ignoring\")")]},
+    # (letting an OSError escape gthread's handle() is contained by finish_request(): equivalent for C05)
     {"name": "c05-error-page-keepalive", "prop": "C05", "checks": ["C05"],
      "edits": [(UT, "    HTTP/1.1 %s %s\\r\n    Connection: close\\r", "    HTTP/1.1 %s %s\\r\n    Connection: keep-alive\\r")]},
     {"name": "c05-nomoredata-after-app-call", "prop": "C05", "checks": ["C05"],
@@ -304,4 +302,17 @@ MUTANTS += [
      "edits": [(GT, "            if self.nr_conns >= self.worker_connections:\n                return\n            sock, client = listener.accept()", "            sock, client = listener.accept()")]},
     {"name": "c13-murder-closes-without-unregister-and-count", "prop": "C13", "checks": ["C13"],
      "edits": [(GT, "            else:\n                self.nr_conns -= 1\n                # remove the socket from the poller", "            else:\n                # remove the socket from the poller")]},
+]
+
+MUTANTS += [
+    # ---- C11 (live part) ---------------------------------------------------------------------
+    {"name": "c11-workers-get-double-timeout", "prop": "C11", "checks": ["C11"],
+     "edits": [(AR, "                                   self.app, self.timeout / 2.0,", "                                   self.app, self.timeout * 2.0,")]},
+    {"name": "c11-gthread-loop-does-not-notify", "prop": "C11", "checks": ["C11"],
+     "edits": [(GT, "        while self.alive:\n            # notify the arbiter we are alive\n            self.notify()\n", "        while self.alive:\n")]},
+    {"name": "c11-gevent-notifies-only-when-idle", "prop": "C11", "checks": ["C11"],
+     "edits": [(GE, "        while self.alive:\n            self.notify()\n            gevent.sleep(1.0)", "        while self.alive:\n            if not len(pool):\n                self.notify()\n            gevent.sleep(1.0)") if False else
+               (GE, "    def notify(self):\n        super().notify()", "    def notify(self):\n        if time.time() % 7 < 4:\n            super().notify()")]},
+    {"name": "c11-sync-notify-only-after-request", "prop": "C11", "checks": ["C11"],
+     "edits": [(SY, "    def wait(self, timeout):\n        try:\n            self.notify()", "    def wait(self, timeout):\n        try:\n            pass")]},
 ]
